@@ -28,15 +28,15 @@ type Violation struct {
 }
 
 type Section struct {
-	Name        string                 `json:"name"`
-	Evaluations int64                  `json:"evaluations"`
-	Distinct    int64                  `json:"distinct_outcomes"`
-	Exhaustive  bool                   `json:"exhaustive"`
-	Bounds      map[string]interface{} `json:"bounds,omitempty"`
-	SkippedPanic int64                 `json:"skipped_panic,omitempty"`
-	Extra       map[string]interface{} `json:"extra,omitempty"`
-	WallS       float64                `json:"wall_s"`
-	Samples     []interface{}          `json:"-"`
+	Name         string                 `json:"name"`
+	Evaluations  int64                  `json:"evaluations"`
+	Distinct     int64                  `json:"distinct_outcomes"`
+	Exhaustive   bool                   `json:"exhaustive"`
+	Bounds       map[string]interface{} `json:"bounds,omitempty"`
+	SkippedPanic int64                  `json:"skipped_panic,omitempty"`
+	Extra        map[string]interface{} `json:"extra,omitempty"`
+	WallS        float64                `json:"wall_s"`
+	Samples      []interface{}          `json:"-"`
 }
 
 type Ctx struct {
@@ -47,22 +47,22 @@ type Ctx struct {
 	Deadline time.Time
 	Replay   string
 
-	mu         sync.Mutex
-	sections   []*Section
-	violations []Violation
-	violClass  map[string]int
-	known      map[string]int // known-finding class -> count
-	knownEx    map[string]string
-	kf         []KnownFinding
+	mu          sync.Mutex
+	sections    []*Section
+	violations  []Violation
+	violClass   map[string]int
+	known       map[string]int // known-finding class -> count
+	knownEx     map[string]string
+	kf          []KnownFinding
 	assumptions []string
-	states     int64
+	states      int64
 	transitions int64
-	notes      []string
+	notes       []string
 }
 
 var hashSeed = maphash.MakeSeed()
 
-func hashBytes(b []byte) uint64 { return maphash.Bytes(hashSeed, b) }
+func hashBytes(b []byte) uint64  { return maphash.Bytes(hashSeed, b) }
 func hashString(s string) uint64 { return maphash.String(hashSeed, s) }
 
 func (c *Ctx) Quick() bool { return c.Tier != "thorough" }
@@ -92,15 +92,15 @@ func (w *Worker) Seen(h uint64) {
 		w.distinct[h] = struct{}{}
 	}
 }
-func (w *Worker) SeenS(s string)  { w.Seen(hashString(s)) }
-func (w *Worker) SeenB(b []byte)  { w.Seen(hashBytes(b)) }
+func (w *Worker) SeenS(s string)          { w.Seen(hashString(s)) }
+func (w *Worker) SeenB(b []byte)          { w.Seen(hashBytes(b)) }
 func (w *Worker) Count(k string, n int64) { w.extra[k] += n }
 func (w *Worker) Sample(x interface{}) {
 	if len(w.samples) < 3 {
 		w.samples = append(w.samples, x)
 	}
 }
-func (w *Worker) Eval() { w.evals++ }
+func (w *Worker) Eval()         { w.evals++ }
 func (w *Worker) Stopped() bool { return atomic.LoadInt32(w.stop) != 0 }
 
 // Fail records a violation (or a known finding). cas must be JSON-serialisable
@@ -409,5 +409,5 @@ func recoverTo(f func()) (pv interface{}, panicked bool) {
 	return nil, false
 }
 
-func timeNow() time.Time                  { return time.Now() }
-func timeSince(t time.Time) float64       { return time.Since(t).Seconds() }
+func timeNow() time.Time            { return time.Now() }
+func timeSince(t time.Time) float64 { return time.Since(t).Seconds() }
